@@ -1,0 +1,32 @@
+//go:build verif
+
+package hamt
+
+import "github.com/ipfs/boxo/ipld/unixfs/internal"
+
+// Hooks for the /verif correspondence harness (properties C15, C16). Add-only,
+// built only with the "verif" tag.
+
+// VerifHashOf returns the digest the HAMT currently computes for a name.
+func VerifHashOf(name string) []byte {
+	return internal.HAMTHashFunction([]byte(name))
+}
+
+// VerifSetHashFunc replaces the HAMT hash function (the package-internal
+// injection point the unit tests use) and returns a function restoring it.
+func VerifSetHashFunc(f func([]byte) []byte) (restore func()) {
+	old := internal.HAMTHashFunction
+	internal.HAMTHashFunction = f
+	return func() { internal.HAMTHashFunction = old }
+}
+
+// VerifNext runs hashBits{b, consumed}.Next(i) and returns the value, the new
+// consumed count and whether Next reported an error.
+func VerifNext(b []byte, consumed, i int) (out, newConsumed int, failed bool) {
+	hb := &hashBits{b: b, consumed: consumed}
+	v, err := hb.Next(i)
+	if err != nil {
+		return 0, hb.consumed, true
+	}
+	return v, hb.consumed, false
+}
